@@ -174,7 +174,7 @@ class Tr:
                 return [('st__', 'get')], f'({STATE_ATTRS[a]} st__)'
             if a in METHODS and METHODS[a][0] == 'property':
                 v = env.fresh(a)
-                return [(v, f'src_{a}')], v
+                return [(v, f'src_{a} c')], v
             raise Unsupported(f'attribute self.{a}')
         if e.attr in PATH_ATTRS:
             eff, t = self.E(e.value, env)
@@ -447,7 +447,7 @@ class Tr:
             kind, sig, _ = METHODS[name]
             if kind == 'property':
                 raise Unsupported('property called')
-            coq, monadic, needs_c = f'src_{name.strip("_")}' if False else f'src_{name}', True, False
+            coq, monadic, needs_c = f'src_{name}', True, True
             params = [p for p, _ in sig]
             types = [t for _, t in sig]
             d = self.defs[name]
@@ -469,7 +469,7 @@ class Tr:
                 dts.append('None')
             cases = []
             for k in range(len(params) + 1):
-                cases.append(f"[{'; '.join(vs[:k])}] => {coq} {' '.join(vs[:k] + dts[k:])}")
+                cases.append(f"[{'; '.join(vs[:k])}] => {coq} c {' '.join(vs[:k] + dts[k:])}")
             return [], '(match ' + seq + ' with ' + ' | '.join(cases) + ' | _ => raise EType end)', True
         given = {}
         for i, a in enumerate(call.args):
@@ -743,7 +743,7 @@ class Tr:
         params = ''.join(f' ({cname(p)} : {t})' for p, t in sig)
         if kind == 'ctx':
             params += ' (body__ : MP unit)'
-        return f'Definition src_{name}{params} : MP {rty} :=\n  {body}.\n'
+        return f'Definition src_{name} (c : pcfg){params} : MP {rty} :=\n  {body}.\n'
 
 
 PREAMBLE = '''(* GENERATED by harness/py2coq.py from %s -- do not edit.
@@ -751,12 +751,11 @@ PREAMBLE = '''(* GENERATED by harness/py2coq.py from %s -- do not edit.
    Gen/PyPrelude.v / Gen/PgmState.v.  Gen/PgmEquiv.v relates each of them to the hand-written model Pgm/Ops.v. *)
 From Coq Require Import List Bool ZArith NArith QArith Qabs String Ascii.
 Import ListNotations.
-From Femto Require Import Base.Num Gen.PyPrelude Gen.PgmState.
+From Femto Require Import Base.Num.
+From FemtoTie Require Import PyPrelude PgmState.
 Local Open Scope string_scope.
 Local Open Scope list_scope.
 
-Section Src.
-Context (c : pcfg).
 %s
 
 '''
@@ -773,7 +772,6 @@ def translate(src_path: str) -> str:
     for name in METHODS:
         out.append(tr.method(name))
         out.append('\n')
-    out.append('End Src.\n')
     return ''.join(out)
 
 
